@@ -1518,4 +1518,8 @@ impl Sim for Kernel {
     }
 
     fn flag_false_seen(&self) {}
+
+    fn sleep_ns(&self, ns: u64) {
+        self.clock.fetch_add(ns, Relaxed);
+    }
 }
